@@ -10,6 +10,7 @@ CONSTANTS Keys,        \* abstract key names offered in the handshake (the harne
           Plans,       \* delivery split classes
           Frames,      \* catalogue of client frames
           MaxFrames,
+          Spellings,   \* spellings of the upgrade request; other than "canon" only with ScriptKey / without a key
           Pres,        \* handler preambles: subset of {"none", "poll", "pollpush"}
           PushPays     \* payloads pushed by the "pollpush" preamble
 
@@ -28,6 +29,15 @@ P125  == <<R(112, 125)>>                                  \* largest control pay
 P126  == <<R(120, 100), R(121, 26)>>                      \* smallest 16-bit length
 P64K  == <<R(122, 65536)>>                                \* smallest 64-bit length
 PC    == <<R(3, 1), R(232, 1), R(111, 1), R(107, 1)>>     \* close code 1000 + "ok"
+P1    == <<R(65, 1)>>
+P125D == <<R(66, 100), R(67, 25)>>                        \* data payloads at the length-form boundaries of the encoder
+P127  == <<R(68, 127)>>
+P65535 == <<R(69, 60000), R(70, 5535)>>
+P65537 == <<R(71, 65537)>>
+P1M   == <<R(72, 1048576)>>                               \* 2^20
+P2M   == <<R(73, 2097152)>>
+PC2   == <<R(3, 1), R(232, 1)>>                           \* close code 1000 alone
+PC3   == <<R(3, 1), R(233, 1), R(120, 1)>>                \* close code 1001 + "x"
 PBIG  == <<R(200, 3145728), R(201, 3145728)>>             \* 6 MiB: more than the socket buffers hold while the client does not read
 PushSmallBig == {PA, PBIG}
 PushNone     == {PE}
@@ -45,6 +55,23 @@ FramesThorough ==
   { F("text", TRUE, PE), F("text", FALSE, PE), F("binary", TRUE, PA), F("binary", FALSE, PB), F("binary", FALSE, PE),
     F("binary", TRUE, P64K),
     F("cont", TRUE, PE), F("cont", TRUE, P126), F("ping", TRUE, P125), F("pong", TRUE, PE) }
+
+\* the server's ENCODER at its boundaries (every message is echoed): 0, 1, 125, 126, 127, 65535, 65536, 65537, 2^20
+\* bytes in one frame, and fragmented messages whose SUM crosses 125|126 and 65535|65536; Close with 0, 2, 3, 4 bytes
+FramesBoundary ==
+  { F("binary", TRUE, PE), F("text", TRUE, P1), F("binary", TRUE, P125D), F("binary", TRUE, P126), F("text", TRUE, P127),
+    F("binary", TRUE, P65535), F("binary", TRUE, P64K), F("text", TRUE, P65537), F("binary", TRUE, P1M),
+    F("binary", FALSE, P125D), F("binary", FALSE, P65535), F("text", FALSE, PE), F("cont", TRUE, P1),
+    F("ping", TRUE, P125), F("close", TRUE, PE), F("close", TRUE, PC2), F("close", TRUE, PC3), F("close", TRUE, PC) }
+\* server -> client bursts: up to three 2 MiB messages echoed to a client that starts reading late
+FramesBurst == { F("binary", TRUE, P2M), F("close", TRUE, PE) }
+
+Keys12   == {"k16", "kEmpty", "k1", "k200", "kColon", "kSpace", "kPunct", "k24", "kDigits", "kEq", "kUtf8", "k1000"}
+\* keys of every length 0..130: key ++ GUID runs through every SHA-1 padding class (length mod 64) twice
+KeysLen  == { "kLen" \o ToString(n) : n \in 0..130 }
+KeysAll  == Keys12 \cup KeysLen \cup {"kUni", "kUniEdge"}
+SpellAll == {"canon", "lower", "upper", "mixed", "tokenUpper", "tokenMixed", "connLower"}
+SpellCanon == {"canon"}
 
 (* delivery split classes: offsets inside one frame after which the client pauses *)
 CutsOf(f, p) ==
@@ -64,8 +91,13 @@ CutsOf(f, p) ==
 MCInit == \E m \in Modes, e \in Echoes, p \in Plans, pr \in Pres :
             \E pp \in (IF pr = "pollpush" THEN PushPays ELSE {PE}) : InitWith(m, e, pr, pp) /\ plan = p
 
-A_Handshake  == (\E k \in Keys \cup {NoKey} : Cli_Handshake(k)) /\ UNCHANGED plan
-A_StartFrame == /\ key = ScriptKey /\ Len(wire) < MaxFrames
+A_Handshake  == /\ \E k \in Keys \cup {NoKey}, v \in Spellings :
+                      /\ v # "canon" => k \in {ScriptKey, NoKey}
+                      \* connections that only shake hands do not vary with the split class or the echo option
+                      /\ (v # "canon" \/ k \notin {ScriptKey, NoKey}) => (plan = "whole" /\ ~echo)
+                      /\ Cli_Handshake(k, v)
+                /\ UNCHANGED plan
+A_StartFrame == /\ key = ScriptKey /\ hsv = "canon" /\ Len(wire) < MaxFrames
                 /\ \E f \in Frames : Cli_StartFrame(f, CutsOf(f, plan))
                 /\ UNCHANGED plan
 A_Piece      == Cli_Piece /\ UNCHANGED plan
@@ -113,7 +145,7 @@ GenOK ==
      /\ pre # "none" => polled                  \* the handler always runs its preamble
      /\ pre = "pollpush" => pushed
 GenRec ==
-  [key |-> key, mode |-> mode, echo |-> echo, plan |-> plan, pre |-> pre, push |-> pushpay,
+  [key |-> key, hsv |-> hsv, mode |-> mode, echo |-> echo, plan |-> plan, pre |-> pre, push |-> pushpay,
    frames |-> [i \in 1..Len(wire) |-> [op |-> wire[i].op, fin |-> wire[i].fin, pay |-> wire[i].pay, cuts |-> cuts[i]]],
    sent |-> sentB, end |-> GenEnding,
    exp |-> [status |-> status, delivered |-> delivered, out |-> srvOut, closed |-> closed, failed |-> failed]]
